@@ -35,8 +35,18 @@ def has(og, pat):
     return any(glob_match(pat, o) or (pat[-1] != '*' and glob_match(pat + '.*', o)) for o in og)
 
 
-def fields_read(f, adt_name):
+_WSREF = [None]
+
+
+def fields_read(f, adt_name, _depth=0):
     out = set()
+    # reads through trivial accessors (`self.get_stake()`), exported or not
+    if _WSREF[0] is not None and _depth < 2:
+        for g in f.family():
+            for c in g.body.calls():
+                for k in _WSREF[0].by_name.get(c.best(), []):
+                    if k.kind == 'assoc_fn' and k.nb <= 6 and k.unit.crate == getattr(f, 'unit', k.unit).crate:
+                        out |= fields_read(k, adt_name, _depth + 1)
     for g in f.family():
         for b in g.body.blocks:
             if b.cleanup:
@@ -58,6 +68,7 @@ def fields_read(f, adt_name):
 def run(ctx):
     R = ctx.report
     ws = ctx.ws
+    _WSREF[0] = ws
     R.clause('a', 'registration order cannot reach the commitment (ordered sets all the way)')
     R.clause('b', 'the order is total on what the leaf commits; the leaf encoding covers the leaf')
     R.clause('c', 'one computation path for all nodes')
@@ -82,7 +93,10 @@ def run(ctx):
         if f is None:
             continue
         body = f.body
-        its = [c for c in body.calls() if any(glob_match('std::collections::btree::set::BTreeSet::iter', n) for n in c.names())
+        # `.iter()` on the set, or a `for` loop over `&set` (IntoIterator on the reference)
+        its = [c for c in body.calls() if any(glob_match('std::collections::btree::set::BTreeSet::iter', n) or glob_match('<&std::collections::btree::set::BTreeSet as *IntoIterator>::into_iter', n)
+                                              or (glob_match('*IntoIterator*::into_iter', n) and 'BTreeSet<' in body.lty(c.args[0][1][0] if c.args and c.args[0][0] in ('copy', 'move') else 0))
+                                              for n in c.names())
                and has(fn_origins(f, c.args[0], True), 'pty:ClosedKeyRegistration.closed_registration_entries')]
         # no sort / shuffle / lossy re-collection on the way
         bad = [c for c in body.calls() if any(glob_match('*::sort*', n) or glob_match('*::shuffle*', n) or glob_match('*::reverse', n) or glob_match('*::rev', n) for n in c.names())]
@@ -95,8 +109,22 @@ def run(ctx):
                 len(its), [c.best() for c in bad][:3], lossy[:3]), f.loc())
     mt = ctx.try_fn('a', CKR + '::to_merkle_tree')
     if mt is not None:
-        ctx.arg_origin('a', mt, 'mithril_stm::membership_commitment::merkle_tree::tree::MerkleTree::new', 0,
-                       require=['pty:ClosedKeyRegistration.closed_registration_entries'], desc='(leaves) <- closed_registration_entries')
+        # (leaves) <- closed_registration_entries: as a value (iterator chain collected) or filled by a loop (`leaves.push(..)`)
+        inst_l = 'ClosedKeyRegistration::to_merkle_tree: arg0 of MerkleTree::new (leaves) <- closed_registration_entries'
+        news_ = [c for c in mt.body.calls() if any(glob_match('mithril_stm::membership_commitment::merkle_tree::tree::MerkleTree::new', n) for n in c.names())]
+        starts_ = set()
+        for b_ in mt.body.blocks:
+            for (_l, pl_, rv_) in b_.stmts:
+                for (l_, place_) in rvalue_reads(rv_):
+                    if any(isinstance(pe, tuple) and pe[0] == 'f' and pe[2] == 'closed_registration_entries' for pe in place_[1]):
+                        starts_.add(pl_[0])
+        fl_ = flows_forward(mt.body, starts_, True, avoid_types=('HashMap<', 'HashSet<')) if starts_ else set()
+        okl = bool(news_) and all(has(fn_origins(mt, c.args[0], True), 'pty:ClosedKeyRegistration.closed_registration_entries') or
+                                  (c.args[0][0] in ('copy', 'move') and c.args[0][1][0] in fl_) for c in news_)
+        if okl:
+            R.ok('a', 'R5', inst_l, '', mt.loc())
+        else:
+            R.violation('a', 'R5', inst_l, 'to_merkle_tree:leaves', 'MerkleTree::new sites %d; the leaves do not derive from the ordered set' % len(news_), mt.loc())
     # closing keeps the set ordered: collected into a BTreeSet from the BTreeSet
     cr = ctx.try_fn('a', KR + '::close_registration')
     if cr is not None:
@@ -189,13 +217,13 @@ def run(ctx):
                           'the aggregate key is built only from a closed registration (or decoded)')
     fr = [f for f in ws.find_all('<' + AVK + ' as std::convert::From>::from') if 'ClosedKeyRegistration' in f.body.lty(1)]
     if fr:
-        f = fr[0]
+        f = ctx.view(fr[0])
         for b in f.body.blocks:
             for (_, pl, rv) in b.stmts:
                 if rv[0] == 'agg' and rv[2] == AVK:
                     o0 = fn_origins(f, rv[5][0], True)
                     o1 = fn_origins(f, rv[5][1], 'adapters')
-                    if has(o0, 'call:' + CKR + '::to_merkle_tree') and has(o1, 'pty:ClosedKeyRegistration.total_stake'):
+                    if ctx.via_sink(o0, CKR + '::to_merkle_tree') and has(o1, 'pty:ClosedKeyRegistration.total_stake'):
                         R.ok('d', 'R5', 'AVK::from(closed registration): commitment <- to_merkle_tree(), total_stake <- reg.total_stake', '', f.loc())
                     else:
                         R.violation('d', 'R5', 'AVK::from(closed registration): commitment <- to_merkle_tree(), total_stake <- reg.total_stake', 'avk:from-fields', '', f.loc())
@@ -246,9 +274,34 @@ def run(ctx):
     # ---- (d)
     if cr is not None:
         body = cr.body
-        fold = [c for c in body.calls() if any(glob_match('*::try_fold', n) or glob_match('*::fold', n) or glob_match('*::sum', n) for n in c.names())]
-        checked = any(any(glob_match('u64::checked_add', n) for cc in g.body.calls() for n in cc.names()) for g in cr.family())
-        src_ok = all(has(fn_origins(cr, c.args[0], True), 'pty:KeyRegistration.registration_entries') for c in fold) and bool(fold)
+        # data flow, however the sum is written (fold / try_fold / for loop, in place or in a helper): the total stake stored in the closed
+        # registration derives from the stakes of registration_entries through checked_add (and through no unchecked addition)
+        checked = src_ok = False
+        try:
+            adt_c = ws.adt(CKR)
+            ti = [fd['n'] for fd in adt_c['variants'][0]['fields']].index('total_stake')
+        except Exception as e:  # noqa
+            R.missing('d', e)
+            ti = None
+        if ti is not None:
+            for g, rv, ln in ctx.closure_aggs(KR + '::close_registration', CKR):
+                og = ctx.deep(KR + '::close_registration', g, rv[5][ti])
+                checked = has(og, 'call:u64::checked_add') or has(og, 'call:*::checked_add')
+                # ... or inside the closure the sum is folded with (`try_fold(0, |acc, e| acc.checked_add(e.stake))`)
+                for o_ in og:
+                    if o_.startswith('closure:'):
+                        for cl_ in ws.by_name.get(o_[8:], []):
+                            if any(n_.endswith('::checked_add') for (ca_, re_, _l) in cl_.calls for n_ in (ca_, re_) if n_):
+                                checked = True
+                src_ok = has(og, 'pty:KeyRegistration.registration_entries')
+            raw_add = []
+            for g in [cr] + [x for x in cr.family() if x is not cr]:
+                for b_ in g.body.blocks:
+                    for (ln_, pl_, rv_) in b_.stmts:
+                        if rv_[0] == 'bin' and rv_[1] in ('Add', 'AddWithOverflow') and 'u64' in g.body.lty(pl_[0]):
+                            raw_add.append(ln_)
+            if raw_add:
+                checked = False
         if checked and src_ok:
             R.ok('d', 'R5', 'close_registration: total stake = checked_add fold over registration_entries', '', cr.loc())
         else:
